@@ -292,7 +292,7 @@ func (r *i36Run) fetchUnit(ui int, b *i36Base, newSrv *i36Srv, prior i36Prior, s
 						if changed > 0 || !i36Eq(st.Shallow, priorShallow) {
 							c.Class(fmt.Sprintf("%s changed=%d shallow=%d", cls, changed, len(st.Shallow)))
 						}
-						if ui%97 == 0 && ti == 0 && depth == 2 {
+						if ui%53 == 0 && ti == 0 && (depth == 1 || depth == 2) {
 							c.Sample(map[string]any{"request": req.String(), "pairing": pairing, "protocol": proto, "refs_changed": changed, "shallow": b.symList(st.Shallow)})
 						}
 					}
